@@ -89,6 +89,9 @@ def jObj : Obj → Json
 
 def c19Step (s : List Obj) (j : Json) : List Obj × Json :=
   if getStr j "op" == "reset" then ([], Json.str "reset") else
+  -- a callable for which `inspect.signature` raises (C callables without a text signature): `from_callable` cannot
+  -- describe it; no object is created (outside the model: constant answer of the driver, no theorem speaks of it)
+  if getStr j "op" == "nosig" then (s ++ [.invalid], Json.mkObj [("kind", "crash"), ("err", "ValueError")]) else
   match parseOp j with
   | none => (s, Json.str "bad-op")
   | some op =>
